@@ -631,6 +631,7 @@ Proof.
   apply andb_true_iff in H. destruct H as [H _].
   apply andb_true_iff in H. destruct H as [H _].
   apply andb_true_iff in H. destruct H as [H _].
+  apply andb_true_iff in H. destruct H as [H _].
   apply andb_true_iff in H. destruct H as [H1 H2].
   unfold disk_eqb in H2.
   apply andb_true_iff in H2. destruct H2 as [H2 Hkv].
@@ -693,9 +694,9 @@ Qed.
    token-not-persisted and stored-item-changed (store part) checks: these checks are
    consequences of the theorems plus correspondence, never stricter than the property *)
 Lemma check_consistent c :
-  agrees (c_disk0 c) (c_runs c) = true -> tokens_wf (c_runs c) = true ->
-  tokens_equal (c_runs c) = true /\ tokens_persisted (c_runs c) = true /\
-  kv_monotone (d_kv (c_disk0 c)) (map (fun r => d_kv (r_disk r)) (c_runs c)) = true.
+  agrees (c_disk0 c) (ok_runs c) = true -> tokens_wf (ok_runs c) = true ->
+  tokens_equal (ok_runs c) = true /\ tokens_persisted (ok_runs c) = true /\
+  kv_monotone (d_kv (c_disk0 c)) (map (fun r => d_kv (r_disk r)) (ok_runs c)) = true.
 Proof.
   intros H Hw. split; [exact (agrees_tokens_equal _ _ H Hw)|].
   split; [exact (agrees_tokens_persisted _ _ H)|].
@@ -743,4 +744,80 @@ Proof.
   intros Hn Ho. rewrite presented_is_spec. rewrite (map_nth_error _ _ _ Hn). f_equal.
   unfold presented_spec. unfold has_opkey in Ho.
   destruct (i_kind i); try reflexivity. destruct (i_opt i); [discriminate Ho | reflexivity].
+Qed.
+
+(* ---------- the token as delivered ---------- *)
+Lemma wire_wrapped defined fs s : In s (wire defined fs) -> su_wrapped s = true.
+Proof.
+  unfold wire. intro H. apply in_flat_map in H. destruct H as [f [_ H]].
+  apply in_map_iff in H. destruct H as [c [<- _]]. reflexivity.
+Qed.
+
+Lemma delivered_token tok ev_tok defined fs cat d :
+  In d (deliver tok ev_tok (wire defined fs) cat) -> snd d = tok.
+Proof.
+  unfold deliver. intro H. apply in_map_iff in H. destruct H as [s [<- Hs]].
+  apply filter_In in Hs. destruct Hs as [Hs _]. cbn [snd]. rewrite (wire_wrapped _ _ _ Hs). reflexivity.
+Qed.
+
+Lemma memN_In x l : memN x l = true <-> In x l.
+Proof.
+  unfold memN. rewrite existsb_exists. split.
+  - intros [y [Hy E]]. apply N.eqb_eq in E. subst; exact Hy.
+  - intro H. exists x. split; [exact H | apply N.eqb_refl].
+Qed.
+
+(* every (filter, listed configured channel) pair whose categories admit the event delivers it *)
+Lemma delivery_complete tok ev_tok defined fs f c cat :
+  In f fs -> In c (fl_chans f) -> In c defined ->
+  (fl_cats f = [] \/ In cat (fl_cats f)) ->
+  In (c, tok) (deliver tok ev_tok (wire defined fs) cat).
+Proof.
+  intros Hf Hc Hd Hm. unfold deliver.
+  apply (in_map (fun s => (su_chan s, if su_wrapped s then tok else ev_tok)) _ (mkSub c (fl_cats f) true)).
+  apply filter_In. split.
+  - unfold wire. apply in_flat_map. exists f. split; [exact Hf|].
+    apply (in_map (fun c => mkSub c (fl_cats f) true)). apply filter_In. split; [exact Hc | apply memN_In, Hd].
+  - unfold sub_matches. cbn [su_cats]. destruct Hm as [-> | Hm]; [reflexivity|].
+    destruct (fl_cats f) as [|x r] eqn:E; [reflexivity | apply memN_In, Hm].
+Qed.
+
+(* ---------- failed starts ---------- *)
+Lemma failed_attempt f d cfg : attempt true f d cfg = ([], None).
+Proof. reflexivity. Qed.
+
+Lemma failed_starts_change_nothing : forall h d,
+  runs_h d h = runs d (completed_steps h) /\ after_h d h = after_all d (completed_steps h).
+Proof.
+  induction h as [|s r IH]; intro d; [split; reflexivity|].
+  cbn [runs_h after_h completed_steps flat_map]. unfold attempt.
+  destruct (hs_open_fails s).
+  - cbn [fst last_or app]. apply IH.
+  - destruct (start (hs_fresh s) d (hs_cfg s)) as [t id] eqn:E. cbn [fst app runs after_all].
+    unfold ident, after. rewrite E. cbn [fst snd].
+    destruct (IH (last_or t d)) as [A B]. split; [f_equal; exact A | exact B].
+Qed.
+
+Lemma completed_steps_wf h :
+  Forall (fun s => hs_open_fails s = false -> token_wf (f_token (hs_fresh s)) = true) h ->
+  Forall (fun fc => token_wf (f_token (fst fc)) = true) (completed_steps h).
+Proof.
+  induction 1 as [|s r Hs Hr IH]; [constructor|].
+  cbn [completed_steps flat_map]. destruct (hs_open_fails s); [exact IH|].
+  cbn [app]. constructor; [apply Hs; reflexivity | exact IH].
+Qed.
+
+Lemma token_stable_h d h id1 rest :
+  Forall (fun s => hs_open_fails s = false -> token_wf (f_token (hs_fresh s)) = true) h ->
+  runs_h d h = id1 :: rest -> Forall (fun id => id_token id = id_token id1) rest.
+Proof.
+  intros Hw H. destruct (failed_starts_change_nothing h d) as [A _]. rewrite A in H.
+  apply (token_stable d (completed_steps h) id1 rest (completed_steps_wf h Hw) H).
+Qed.
+
+Lemma items_stable_h h d i j idi idj it v w :
+  i <= j -> nth_error (runs_h d h) i = Some idi -> nth_error (runs_h d h) j = Some idj ->
+  In (it, v) (id_items idi) -> In (it, w) (id_items idj) -> v = w.
+Proof.
+  destruct (failed_starts_change_nothing h d) as [A _]. rewrite A. apply items_stable.
 Qed.
